@@ -221,7 +221,8 @@ class Optimizer(Logger, Citable):
         """ 
 
         Returns a list of the current values of a fitting parameter. This 
-        respects the ``mode`` setting
+        is expressed in the space of its prior (and of :func:`fit_names`),
+        which follows the ``mode`` setting unless a prior has been set
 
         Returns
         -------
@@ -230,8 +231,9 @@ class Optimizer(Logger, Citable):
 
         """
 
-        return [c[2]() if c[4] == 'linear' else math.log10(c[2]())
-                for c in self.fitting_parameters]
+        return [c[2]() if p.priorMode is PriorMode.LINEAR
+                else math.log10(c[2]())
+                for c, p in zip(self.fitting_parameters, self.fitting_priors)]
 
     @property
     def fit_boundaries(self):
@@ -244,12 +246,10 @@ class Optimizer(Logger, Citable):
         :obj:`list`:
             List of boundaries for each fitting parameter. It takes the form of
             a python :obj:`tuple` with the form 
-            ( ``bound_min`` , ``bound_max`` )
+            ( ``bound_min`` , ``bound_max`` ) in the space of its prior
 
         """
-        return [c[-1] if c[4] == 'linear'
-                else (math.log10(c[-1][0]), math.log10(c[-1][1]))
-                for c in self.fitting_parameters]
+        return [p.boundaries() for p in self.fitting_priors]
 
     @property
     def fit_names(self):
@@ -264,8 +264,9 @@ class Optimizer(Logger, Citable):
 
         """
 
-        return [c[0] if self._fit_priors[c[0]].priorMode is PriorMode.LINEAR
-                else 'log_{}'.format(c[0]) for c in self.fitting_parameters]
+        return [c[0] if p.priorMode is PriorMode.LINEAR
+                else 'log_{}'.format(c[0])
+                for c, p in zip(self.fitting_parameters, self.fitting_priors)]
 
     @property
     def fit_latex(self):
@@ -280,8 +281,9 @@ class Optimizer(Logger, Citable):
 
 
         """
-        return [c[1] if self._fit_priors[c[0]].priorMode is PriorMode.LINEAR else 'log({})'.format(c[1])
-                for c in self.fitting_parameters]
+        return [c[1] if p.priorMode is PriorMode.LINEAR
+                else 'log({})'.format(c[1])
+                for c, p in zip(self.fitting_parameters, self.fitting_priors)]
 
     @property
     def derived_names(self):
